@@ -267,6 +267,12 @@ pub fn exec_plain(req: &Req, api: &Arc<InternalAPI>, node: &SimNode, op: &Op) ->
             node.lock().faults.down = false;
             "up".into()
         }
+        Op::NodeUpThenDownAfter { rpcs } => {
+            let mut st = node.lock();
+            st.faults.down = false;
+            st.faults.down_at_rpc = Some(st.rpc_count + *rpcs as u64);
+            "up-for-a-moment".into()
+        }
         Op::Evict(t) => {
             node.lock().evict(&req.tx_of(t).compute_txid());
             "evicted".into()
@@ -662,7 +668,13 @@ fn run_scenario_here(sc: &Scenario, strategy: Option<Strategy>, order: Option<&[
             let flag_ok = *ctx.reachable.0.lock().unwrap_or_else(|e| e.into_inner());
             if !stuck && flag_ok {
                 let r = catch_unwind(AssertUnwindSafe(|| {
-                    node.lock().faults.down = false;
+                    {
+                        // no fault may fire outside the scheduled phase (the code under test could block for real)
+                        let mut st = node.lock();
+                        st.faults.down = false;
+                        st.faults.down_at_rpc = None;
+                        st.faults.down_at_bs = None;
+                    }
                     (ctx.poll)();
                     (ctx.poll)();
                 }));
